@@ -228,11 +228,21 @@ where
         .iter_mut()
         .map(|partial_products_and_z| partial_products_and_z.pop().unwrap())
         .collect();
+    #[cfg(plonky2_verif)]
+    let plonk_z_vecs: Vec<PolynomialValues<F>> = match crate::verif_knobs::get().z_override {
+        Some(c) => vec![PolynomialValues::constant(F::from_canonical_u64(c), degree); num_challenges],
+        None => plonk_z_vecs,
+    };
     let zs_partial_products = [plonk_z_vecs, partial_products_and_zs.concat()].concat();
 
     // All lookup polys: RE and partial SLDCs.
     let lookup_polys =
         compute_all_lookup_polys(&witness, &deltas, prover_data, common_data, has_lookup);
+    #[cfg(plonky2_verif)]
+    let lookup_polys: Vec<PolynomialValues<F>> = match crate::verif_knobs::get().lookup_override {
+        Some(c) => vec![PolynomialValues::constant(F::from_canonical_u64(c), degree); lookup_polys.len()],
+        None => lookup_polys,
+    };
 
     let zs_partial_products_lookups = if has_lookup {
         [zs_partial_products, lookup_polys].concat()
@@ -273,12 +283,24 @@ where
         )
     );
 
+    #[cfg(plonky2_verif)]
+    let quotient_polys = {
+        let mut quotient_polys = quotient_polys;
+        if let Some(i) = crate::verif_knobs::get().perturb_quotient {
+            quotient_polys[i].coeffs[0] += F::ONE;
+        }
+        quotient_polys
+    };
     let all_quotient_poly_chunks: Vec<PolynomialCoeffs<F>> = timed!(
         timing,
         "split up quotient polys",
         quotient_polys
             .into_par_iter()
             .flat_map(|mut quotient_poly| {
+                #[cfg(plonky2_verif)]
+                if crate::verif_knobs::get().lenient_trim {
+                    quotient_poly.coeffs.truncate(quotient_degree);
+                }
                 quotient_poly.trim_to_len(quotient_degree).expect(
                     "Quotient has failed, the vanishing polynomial is not divisible by Z_H",
                 );
@@ -326,6 +348,14 @@ where
             common_data
         )
     );
+    #[cfg(plonky2_verif)]
+    let openings = {
+        let mut openings = openings;
+        if let Some(d) = crate::verif_knobs::get().opening_delta {
+            openings.wires[0] += F::Extension::from_canonical_u64(d);
+        }
+        openings
+    };
     challenger.observe_openings(&openings.to_fri_openings());
     let instance = common_data.get_fri_instance(zeta);
 
